@@ -92,7 +92,7 @@ func genC05(r *Rng, idx int, tier string) *World {
 			w.Ops = append(w.Ops, Op{K: "gh", Pattern: garbage(r), HID: hid, Methods: ms})
 		case k < 30 && r.Pct(25):
 			// a very long parameter segment, then the same pattern with the parameter renamed
-			long := strings.Repeat(pick(r, []string{"x", "ab", "/seg"}), pick(r, []int{16000, 33000, 40000, 66000}))
+			long := strings.Repeat(pick(r, []string{"x", "ab", "/seg", "\u00e9", "\u65e5"}), pick(r, []int{16000, 17000, 11000, 33000, 40000, 66000})) // also: more bytes than runes
 			for _, name := range []string{"id", "name"} {
 				hid++
 				w.Ops = append(w.Ops, Op{K: "gh", Pattern: "/lp/{" + name + "}" + long, HID: hid, Methods: []string{"GET"}})
